@@ -51,7 +51,7 @@ def plainAllowed (k : Kind) : Bool :=
   | .status | .queryClustersByDomain | .queryClustersHashes | .queryMetrics | .softStop
   | .hardStop | .configureMetrics | .logging | .returnListenSockets
   | .queryCertificatesFromTheState | .countRequests | .setMaxConnectionsPerIp
-  | .queryMaxConnectionsPerIp | .queryHealthChecks | .setMetricDetail => true
+  | .queryMaxConnectionsPerIp | .queryHealthChecks => true
   | _ => false
 
 def hasFlag (flags : String) (c : Char) : Bool := flags.toList.contains c
@@ -92,6 +92,11 @@ def parseOp (ws : List String) : Option Op :=
     match parseLTypeOpt t, a.toNat? with
     | some t, some a => some (.activate t a)
     | _, _ => none
+  -- `scm`: `to_scm = true` (the descriptor is also sent on the SCM socket; same answer)
+  | ["deact", t, a, "scm"] =>
+    match parseLTypeOpt t, a.toNat? with
+    | some t, some a => some (.deactivate t a)
+    | _, _ => none
   | ["deact", t, a] =>
     match parseLTypeOpt t, a.toNat? with
     | some t, some a => some (.deactivate t a)
@@ -124,21 +129,27 @@ def parseOp (ws : List String) : Option Op :=
     | some p, some a, some c =>
       if p == .tcp || p == .udp then some (.removeL4Front (p == .udp) a c) else none
     | _, _, _ => none
-  | ["addcert", a, v] =>
-    match a.toNat?, parseBool v with
-    | some a, some v => some (.addCert a v)
-    | _, _ => none
-  | ["rmcert", a, v] =>
-    match a.toNat?, parseBool v with
-    | some a, some v => some (.removeCert a v)
-    | _, _ => none
-  | ["replcert", a, h, n] =>
-    match a.toNat?, parseBool h, parseBool n with
-    | some a, some h, some n => some (.replaceCert a h n)
+  | ["addcert", a, i, v] =>
+    match a.toNat?, i.toNat?, parseBool v with
+    | some a, some i, some v => some (.addCert a i v)
     | _, _, _ => none
-  | ["qcerts", f, found] =>
-    match parseBool f, parseBool found with
-    | some f, some found => some (.queryCerts f found)
+  | ["rmcert", a, i, v] =>
+    match a.toNat?, i.toNat?, parseBool v with
+    | some a, some i, some v => some (.removeCert a i v)
+    | _, _, _ => none
+  | ["replcert", a, o, h, n, nv] =>
+    match a.toNat?, o.toNat?, parseBool h, n.toNat?, parseBool nv with
+    | some a, some o, some h, some n, some nv => some (.replaceCert a o h n nv)
+    | _, _, _, _, _ => none
+  | ["qcerts", m, i] =>
+    match m.toNat?, i.toNat? with
+    | some m, some i => if m ≤ 2 then some (.queryCerts m i) else none
+    | _, _ => none
+  | ["setdetail", c, fl, p] =>
+    match c.toNat?, p.toNat? with
+    | some c, some p =>
+      let detail := if hasFlag fl 'n' then 0 else if hasFlag fl 'v' then 2 else 1
+      some (.setDetail c (hasFlag fl 'l') (hasFlag fl 'c') detail (hasFlag fl 't') (!hasFlag fl 'u') p)
     | _, _ => none
   | ["qcluster", c] => c.toNat?.map Op.queryCluster
   | _ => none
@@ -146,6 +157,9 @@ def parseOp (ws : List String) : Option Op :=
 def stepLine (s : WState) (line : String) : WState × List String :=
   match words line with
   | ["new"] => (WState.init, ["new"])
+  -- a worker with `max_connections = 1`: the listener capacity gate is within reach
+  | ["new", "small"] => (WState.initWith 1, ["new"])
+  | ["new", "w", "small"] => (WState.initWith 1, ["new"])
   -- `new w`: a fixed witness case of the harness' corpus
   | ["new", "w"] => (WState.init, ["new"])
   -- thorough tier: the harness starts a client hammering a route outside the op universe
